@@ -44,15 +44,13 @@ def rdate(r):
 
 
 def rnumber(r):
-    """Finite non-negative Decimal whose str() has no exponent."""
-    while True:
-        k = r.random()
-        if k < 0.3:
-            v = D(r.randint(0, 10 ** r.randint(0, 12)))
-        else:
-            v = D(r.randint(0, 10 ** r.randint(1, 10))).scaleb(-r.randint(0, 8))
-        if 'E' not in str(v):
-            return v
+    """Finite non-negative Decimal (any exponent: small fractions and exponent-form values included)."""
+    k = r.random()
+    if k < 0.3:
+        return D(r.randint(0, 10 ** r.randint(0, 12)))
+    if k < 0.4:
+        return r.choice([D('1E+3'), D('0E-7'), D('0.0000009990'), D('9.0E-11'), D('12E+1'), D('0.000000'), D('1E-7')])
+    return D(r.randint(0, 10 ** r.randint(1, 10))).scaleb(-r.randint(0, 14))
 
 
 def rsigned(r):
